@@ -5,6 +5,8 @@ package relq
 
 import (
 	"fmt"
+	"math"
+	"strconv"
 	"strings"
 
 	"verifharness/lib"
@@ -20,6 +22,7 @@ const (
 	KBool
 	KStr
 	KList
+	KFloat
 )
 
 type Val struct {
@@ -27,14 +30,16 @@ type Val struct {
 	I    int64
 	B    bool
 	S    string
+	F    float64
 	List []Val
 }
 
-func Null() Val          { return Val{K: KNull} }
-func Int(i int64) Val    { return Val{K: KInt, I: i} }
-func Bool(b bool) Val    { return Val{K: KBool, B: b} }
-func Str(s string) Val   { return Val{K: KStr, S: s} }
-func ListOf(l []Val) Val { return Val{K: KList, List: l} }
+func Null() Val           { return Val{K: KNull} }
+func Int(i int64) Val     { return Val{K: KInt, I: i} }
+func Bool(b bool) Val     { return Val{K: KBool, B: b} }
+func Str(s string) Val    { return Val{K: KStr, S: s} }
+func Float(f float64) Val { return Val{K: KFloat, F: f} }
+func ListOf(l []Val) Val  { return Val{K: KList, List: l} }
 
 func (v Val) Coq() string {
 	switch v.K {
@@ -46,6 +51,8 @@ func (v Val) Coq() string {
 		return "VBool " + lib.CoqBool(v.B)
 	case KStr:
 		return "VStr " + lib.CoqBytes(v.S)
+	case KFloat:
+		return "VFloat " + lib.U(math.Float64bits(v.F))
 	default:
 		parts := make([]string, len(v.List))
 		for i := range v.List {
@@ -65,6 +72,8 @@ func (v Val) JSON() interface{} {
 		return v.B
 	case KStr:
 		return fmt.Sprintf("%q", v.S)
+	case KFloat:
+		return fmt.Sprintf("float %v", v.F)
 	default:
 		out := make([]interface{}, len(v.List))
 		for i := range v.List {
@@ -85,6 +94,8 @@ func (v Val) Equal(w Val) bool {
 		return v.B == w.B
 	case KStr:
 		return v.S == w.S
+	case KFloat:
+		return math.Float64bits(v.F) == math.Float64bits(w.F)
 	case KList:
 		if len(v.List) != len(w.List) {
 			return false
@@ -166,6 +177,12 @@ func (l Lit) SQL() string {
 			return "TRUE"
 		}
 		return "FALSE"
+	case KFloat:
+		t := strconv.FormatFloat(l.V.F, 'f', -1, 64)
+		if !strings.Contains(t, ".") {
+			t += ".0"
+		}
+		return t
 	default:
 		return "'" + l.V.S + "'" // the generator draws literals without quotes and backslashes
 	}
@@ -220,6 +237,7 @@ func (a Or) Coq() string { return fmt.Sprintf("EOr (%s) (%s)", a.A.Coq(), a.B.Co
 
 type Item struct {
 	Star  bool
+	QStar string // t.* (with Star)
 	Agg   string // "" for a plain expression; count sum avg min max array_agg
 	Dist  bool
 	CStar bool // count(*)
@@ -229,6 +247,18 @@ type Item struct {
 	// (an alias that repeats another column's name gets a numeric suffix from the parser)
 	NoAlias  bool
 	SQLAlias string
+}
+
+// the alias as written (the Coq model derives the column name itself)
+func (it Item) coqAlias() string {
+	switch {
+	case it.NoAlias:
+		return "None"
+	case it.SQLAlias != "":
+		return "(Some " + CoqName(it.SQLAlias) + ")"
+	default:
+		return "(Some " + CoqName(it.Alias) + ")"
+	}
 }
 
 func (it Item) as() string {
@@ -245,6 +275,8 @@ var aggCoq = map[string]string{"count": "ACount", "sum": "ASum", "avg": "AAvg", 
 
 func (it Item) SQL() string {
 	switch {
+	case it.Star && it.QStar != "":
+		return it.QStar + ".*"
 	case it.Star:
 		return "*"
 	case it.Agg != "":
@@ -262,12 +294,14 @@ func (it Item) SQL() string {
 }
 func (it Item) Coq() string {
 	switch {
+	case it.Star && it.QStar != "":
+		return "IQStar " + CoqName(it.QStar)
 	case it.Star:
 		return "IStar"
 	case it.Agg != "":
-		return fmt.Sprintf("IAgg %s %s (%s) %s", aggCoq[it.Agg], lib.CoqBool(it.Dist), it.E.Coq(), CoqName(it.Alias))
+		return fmt.Sprintf("IAgg %s %s (%s) %s", aggCoq[it.Agg], lib.CoqBool(it.Dist), it.E.Coq(), it.coqAlias())
 	default:
-		return fmt.Sprintf("IExpr (%s) %s", it.E.Coq(), CoqName(it.Alias))
+		return fmt.Sprintf("IExpr (%s) %s", it.E.Coq(), it.coqAlias())
 	}
 }
 
